@@ -70,7 +70,7 @@ def bounded_roundtrip(run, tier, replay_line=None):
         trips, fails, known, skipped = (int(x) for x in m.groups())
         first = [l for l in out.splitlines() if l.startswith("FAIL ")]
         firstk = [l for l in out.splitlines() if l.startswith("FAIL-MULTILINE-ARRAY")]
-        run.add(core.Obligation("bounded.text-roundtrip[Scalars,Shapes,Nesting x base 2/10/16 x grouping x single-line|multi-line|multi-line+comments]",
+        run.add(core.Obligation("bounded.text-roundtrip[Scalars,Shapes,Nesting,Floats x base 2/10/16 x grouping x single-line|multi-line|multi-line+comments]",
                                 core.BPASS if fails == 0 else core.BFAIL, "native ASan/UBSan", time.time() - t0, kind="bounded",
                                 model={"first_failure": first[0][:1500]} if first else None, detail="%d round trips, %d failures" % (trips, fails),
                                 replay=None if not first else {"reproduced": True, "inputs": first[0][:600]}))
@@ -78,7 +78,7 @@ def bounded_roundtrip(run, tier, replay_line=None):
                                 kind="bounded", model={"first_failure": firstk[0][:600]} if firstk else None, detail="%d failing round trips" % known,
                                 replay=None if not firstk else {"reproduced": True, "inputs": firstk[0][:600]}))
         run.bounded.append({"what": "UpdateFromText(WriteToString(view, options)) == view on enumerated Ok buffers (edge values 0, 2^k-1, 2^k, 2^63, 2^64-1, named and unnamed enum values, "
-                                    "valid Bcd, + seeded random) of 3 structures x 18 re-readable option sets", "evaluations": trips, "distinct_nontrivial": trips,
+                                    "valid Bcd, + seeded random) of 4 structures (Floats compared byte-wise: signed zeros, infinities, NaN payloads, denormals) x 18 re-readable option sets", "evaluations": trips, "distinct_nontrivial": trips,
                             "seconds": round(time.time() - t0, 1), "bound": "%d buffers per structure, seed %d" % (16 + n, run.seed)})
     finally:
         shutil.rmtree(d, ignore_errors=True)
